@@ -793,6 +793,12 @@ func c14Lin(ctx *Ctx) {
 				maxT = d.Ret
 			}
 		}
+		for _, c := range calls {
+			// an open call may have been issued after every completed operation had returned
+			if c.Call > maxT {
+				maxT = c.Call
+			}
+		}
 		var ops []porcupine.Operation
 		clientIdx := map[int]int{}
 		cid := func(c int) int {
@@ -820,7 +826,11 @@ func c14Lin(ctx *Ctx) {
 		switch res {
 		case porcupine.Illegal:
 			sort.Slice(done, func(i, j int) bool { return done[i].Call < done[j].Call })
-			ctx.Violation("history-not-linearizable", fmt.Sprintf("%v", desc), map[string]interface{}{"desc": desc, "history": done})
+			var openCalls []linRec
+			for _, c := range calls {
+				openCalls = append(openCalls, c)
+			}
+			ctx.Violation("history-not-linearizable", fmt.Sprintf("%v", desc), map[string]interface{}{"desc": desc, "history": done, "open_calls_of_killed_clients": openCalls})
 		case porcupine.Unknown:
 			ctx.Inconclusive("porcupine timed out on a history of " + strconv.Itoa(len(ops)) + " operations")
 		default:
